@@ -83,8 +83,7 @@ def C1(ctx: Ctx) -> RuleResult:
                 v = o.value
                 if o.kind == 'return' and v == Const(0):
                     # must have parsed on this path
-                    res = (o.env or {}).get('result')
-                    parsed = res is not None and _calls(res, lambda c: _parse_fn(c) is not None)
+                    parsed = [c for v_ in (o.env or {}).values() for c in _calls(v_, lambda c: _parse_fn(c) is not None)]
                     if parsed:
                         n_ok += 1
                         r.ok(f'success path returns 0 after {[_parse_fn(c) for c in parsed][0]}')
@@ -152,7 +151,9 @@ def C2(ctx: Ctx) -> RuleResult:
     for o in outs:
         if any(_is_except(g) is not None for g in o.guards) or o.kind != 'return':
             continue
-        res = (o.env or {}).get('result')
+        res = next((v_ for v_ in (o.env or {}).values() if isinstance(v_, Call) and _parse_fn(v_) is not None), None)
+        if res is None:
+            res = next((v_ for v_ in (o.env or {}).values() if _calls(v_, lambda c: _parse_fn(c) is not None) and not _calls(v_, lambda c: isinstance(c.func, Ext) and c.func.name in ('json.dumps',) or (isinstance(c.func, Ext) and c.func.name.endswith('asdict')))), None)
         if res is None:
             continue
         pol = None
